@@ -163,6 +163,7 @@ theorem C01_step (d : DF) (s : Step) (h : Inv d) (hs : s.WF d.eval.cols)
     · refine inv_of_ready_select _ hi hr (List.zipWith (fun c n => (n, Expr.col c)) d.eval.cols names) ?_ _ rfl
       rw [zipWith_names _ _ hs.1]; exact hs.2
   | dropna howAll thresh sub => simp [Step.inTheorem] at hin
+  | unpivot ids vals var val => simp [Step.inTheorem] at hin
 
 /-- chains from any state satisfying the invariant -/
 theorem C01_run (steps : List Step) : ∀ (d : DF), Inv d → StepsWF d.eval steps →
@@ -247,7 +248,7 @@ example : ((DF.init exTable).run exSteps).eval = { cols := ["x", "z"], rows := [
 
 C01 as given quantifies over *all* single-input transformations.  `C01_partial` proves it for the
 eleven step kinds above.  Not covered by a theorem (they are exercised only by the correspondence
-stream, implementation vs executable specification): `dropna` (modelled, `Step.inTheorem = false`), `unpivot`,
+stream, implementation vs executable specification): `dropna` and `unpivot` (modelled, `Step.inTheorem = false`),
 `dropDuplicates(subset)`, `groupBy().agg()` as a step (see C06), expression order keys, and the
 tie order of a second `orderBy` (see `C01_orderBy_twice`). -/
 def C01_full_statement : Prop :=
